@@ -190,3 +190,33 @@ Proof.
   - intros [A B]. destruct r; simpl in *; try discriminate; tauto.
   - intro H. simpl in H. repeat (destruct H as [H|H]; [subst r; split; reflexivity|]). contradiction.
 Qed.
+
+(* ------------------------------------------------------------------ the commands of the property *)
+Lemma listing_commands_lemma : forall c,
+  listing_cmd c = true <-> (c <> CmdBackupParentFullIds /\ c <> CmdForgetFullIds).
+Proof.
+  intro c. destruct c; vm_compute; split; intro H; try discriminate; try reflexivity;
+    try (split; discriminate); destruct H as [A B]; congruence.
+Qed.
+
+Lemma cmd_item_good x : cmd_item x -> good_item x = true.
+Proof.
+  destruct x as [s|o]; simpl; [|auto]. intros [c [L S]]. apply negb_true_iff.
+  destruct s; simpl in *; try reflexivity.
+  - apply existsb_exists in S. destruct S as [[r' t'] [I E]]. simpl in E.
+    apply andb_true_iff in E. destruct E as [E1 E2].
+    apply internal_rdr_dec_bl in E1. apply ft_eqb_eq in E2. subst r' t'.
+    unfold listing_cmd in L. rewrite forallb_forall in L. specialize (L _ I). simpl in L.
+    apply negb_true_iff in L. exact L.
+  - apply negb_true_iff in S. exact S.
+Qed.
+
+Lemma command_histories_transparent_lemma : forall content h c be,
+  BeHonest content be -> CacheFaulty content c ->
+  Forall (op_honest content) (history_ops h) -> Forall cmd_item h ->
+  fst (run_c (history_ops h) (mkst c be)) = fst (run_u (history_ops h) be) /\
+  bke (snd (run_c (history_ops h) (mkst c be))) = snd (run_u (history_ops h) be).
+Proof.
+  intros content h c be HB HC Ho G. apply (commands_transparent_lemma content); try assumption.
+  apply forallb_forall. intros x I. apply cmd_item_good. rewrite Forall_forall in G. auto.
+Qed.
